@@ -292,6 +292,28 @@ func (g *Gen) hugeSumProgram() *GProgram {
 	if g.r.Chance(1, 4) {
 		fee = new(big.Int).Add(two64, bi(int64(g.r.Intn(9))))
 	}
+	if g.r.Chance(1, 3) {
+		// NUMBER variables around the edge of the machine word, summed inside a monetary: [USD $a + $b + $c]
+		edge := []*big.Int{new(big.Int).Sub(pow2(63), bi(1)), pow2(62), pow2(63), new(big.Int).Sub(pow2(64), bi(1)), new(big.Int).Sub(pow2(62), bi(1)), new(big.Int).Neg(pow2(62))}
+		a, b := edge[g.r.Intn(len(edge))], edge[g.r.Intn(len(edge))]
+		c := bi(int64(g.r.Intn(200)))
+		g.prog.Vars = append(g.prog.Vars, &GVarDecl{Type: "number", Name: "na"}, &GVarDecl{Type: "number", Name: "nb"}, &GVarDecl{Type: "number", Name: "nc"})
+		g.rawVars["na"], g.rawVars["nb"], g.rawVars["nc"] = a.String(), b.String(), c.String()
+		sum := &GExpr{Kind: XInfix, Op: "+", A: &GExpr{Kind: XInfix, Op: "+", A: &GExpr{Kind: XVar, S: "na"}, B: &GExpr{Kind: XVar, S: "nb"}}, B: &GExpr{Kind: XVar, S: "nc"}}
+		if g.r.Chance(1, 3) {
+			sum = &GExpr{Kind: XInfix, Op: "-", A: &GExpr{Kind: XInfix, Op: "+", A: &GExpr{Kind: XVar, S: "na"}, B: &GExpr{Kind: XVar, S: "nb"}}, B: &GExpr{Kind: XVar, S: "nc"}}
+		}
+		src := srcAcct("world")
+		if g.r.Chance(1, 3) {
+			g.bal["a"] = map[string]*big.Int{asset: new(big.Int).Add(new(big.Int).Add(a, b), c)}
+			src = srcAcct("a")
+		}
+		g.prog.Stmts = append(g.prog.Stmts, &GStmt{Kind: StSend, Sent: &GSent{E: &GExpr{Kind: XMonetary, A: &GExpr{Kind: XAsset, S: asset}, B: sum}}, Src: src, Dst: dstAcct("c")})
+		if g.r.Chance(1, 2) {
+			g.prog.Stmts = append(g.prog.Stmts, &GStmt{Kind: StCall, Call: &GFnCall{Name: "set_tx_meta", Args: []*GExpr{{Kind: XString, S: "sum"}, {Kind: XInfix, Op: "+", A: &GExpr{Kind: XVar, S: "na"}, B: &GExpr{Kind: XVar, S: "nb"}}}}})
+		}
+		return g.prog
+	}
 	g.prog.Vars = append(g.prog.Vars, &GVarDecl{Type: "monetary", Name: "price"}, &GVarDecl{Type: "monetary", Name: "fee"})
 	g.rawVars["price"] = asset + " " + price.String()
 	g.rawVars["fee"] = asset + " " + fee.String()
@@ -917,5 +939,43 @@ func (g *Gen) saveAllDebtProgram() *GProgram {
 		sent = &GSent{All: true, E: &GExpr{Kind: XAsset, S: asset}}
 	}
 	g.prog.Stmts = append(g.prog.Stmts, &GStmt{Kind: StSend, Sent: sent, Src: src, Dst: dstAcct("c")})
+	return g.prog
+}
+
+// remainingFirst: a SOURCE allotment whose `remaining` share is written first or in the middle (the
+// checker objects, the interpreter runs it): the draw list follows the order in which the clauses are
+// written, which shows in who pays whom as soon as there are several destinations or a kept amount.
+func (g *Gen) remainingFirstProgram() *GProgram {
+	asset := "USD"
+	g.asset = asset
+	g.smallBalances([]string{"a", "b", "c"}, asset, 30)
+	for _, a := range []string{"a", "b", "c"} {
+		g.bal[a][asset] = new(big.Int).Add(g.bal[a][asset], bi(40))
+	}
+	den := int64(3 + g.r.Intn(6))
+	p1 := int64(1 + g.r.Intn(int(den)-2))
+	als := []*GAllot{{Kind: AlRemaining}, {Kind: AlRatio, E: g.ratio(bi(p1), bi(den))}}
+	names := []string{"a", "b", "c"}
+	if g.r.Chance(1, 2) {
+		p2 := int64(1 + g.r.Intn(int(den-p1)-0))
+		if p1+p2 < den {
+			als = []*GAllot{{Kind: AlRatio, E: g.ratio(bi(p1), bi(den))}, {Kind: AlRemaining}, {Kind: AlRatio, E: g.ratio(bi(p2), bi(den))}}
+		}
+	}
+	src := &GSource{Kind: SrcAllot}
+	for i, al := range als {
+		src.Items = append(src.Items, &GSrcItem{Allot: al, From: srcAcct(names[i%3])})
+	}
+	n := int64(5 + g.r.Intn(40))
+	var dst *GDest
+	switch g.r.Intn(3) {
+	case 0:
+		dst = &GDest{Kind: DstInorder, Clauses: []*GClause{{Cap: lit(asset, bi(int64(1+g.r.Intn(int(n))))), To: &GKod{To: dstAcct("x")}}}, Remaining: &GKod{To: dstAcct("y")}}
+	case 1:
+		dst = &GDest{Kind: DstInorder, Clauses: []*GClause{{Cap: lit(asset, bi(int64(1+g.r.Intn(int(n))))), To: &GKod{Kept: true}}}, Remaining: &GKod{To: dstAcct("y")}}
+	default:
+		dst = &GDest{Kind: DstAllot, Items: []*GDestItem{{Allot: &GAllot{Kind: AlRatio, E: g.ratio(bi(1), bi(2))}, To: &GKod{To: dstAcct("x")}}, {Allot: &GAllot{Kind: AlRemaining}, To: &GKod{To: dstAcct("y")}}}}
+	}
+	g.prog.Stmts = append(g.prog.Stmts, &GStmt{Kind: StSend, Sent: &GSent{E: lit(asset, bi(n))}, Src: src, Dst: dst})
 	return g.prog
 }
